@@ -36,6 +36,8 @@ ASSUMPTIONS = [
     'propagate out of start-up - observed, outside the quantifier of the property)',
     'the module clock advances by 1 s per time.time() call so that announceUpdate never omits an unchanged update '
     '(omit_unchanged_within = 0.1 s); values assigned and configured are valid canonical members of their datatype',
+    'model = repaired code (fix: b610a07, 6518f2a, 66c61e0 and the datatype repairs): stored entries pass '
+    'import_value, validate and export_value or are ignored',
     'json.dump/json.load, float(int), float*int, round(x/scale), base64 are CPython: their results enter the model as data '
     '(chunk count of a dump, integral floats as FInt, scaled and base64 tables) and are exercised by the correspondence',
     'durability without fsync and real power loss are file-system semantics and not covered',
@@ -745,9 +747,9 @@ def enc_dt(dt, T):
     if k == 'float':
         return 'DFloat'
     if k == 'scaled':
-        return f'(DScaled {T.scaled(dt[1])})'
+        return f'(DScaled {T.scaled(dt[1])} {gal.z(-1000)} {gal.z(1000)})'    # mk_datatype: min/max = -/+1000*scale
     if k == 'blob':
-        return f'(DBlob {T.blob()})'
+        return f'(DBlob {gal.nat(dt[1])} {gal.nat(dt[2])} {T.blob()})'
     if k == 'array':
         return f'(DArray {enc_dt(dt[1], T)} {gal.nat(dt[2])} {gal.nat(dt[3])})'
     if k == 'tuple':
@@ -1201,7 +1203,7 @@ def gen_params(rng):
 
 
 WRONG_KINDS = [None, True, 3, 'ab', 'a', [], [1, 2], {'s': {}}, {'s': {'x': 1}}, {'f': (2.5).hex()}, {'f': (1.0).hex()},
-               'YQ==', [[1]], 0, '']
+               'YQ==', 'YWJj', [[1]], 0, '']
 
 
 def outdate(dt, rng):
@@ -1223,7 +1225,7 @@ def outdate(dt, rng):
     return pick_wrong(dt, rng)
 
 
-def pick_wrong(dt, rng, allow_range=False):
+def pick_wrong(dt, rng, allow_range=True):
     if allow_range and dt[0] == 'int' and rng.random() < 0.4:
         return rng.choice([dt[2] + 40, dt[1] - 1])
     if allow_range and dt[0] == 'blob' and rng.random() < 0.4:
@@ -1232,15 +1234,11 @@ def pick_wrong(dt, rng, allow_range=False):
     if isinstance(w, dict) and 'f' in w and float.fromhex(w['f']) != int(float.fromhex(w['f'])) \
             and has_kind(dt, 'scaled'):
         return 3        # int(2.5) truncates: the table of scale*n is indexed by integers only
-    if not allow_range and dt[0] == 'blob' and isinstance(w, str) and spec_usable(dt, w, strict=False) is not None \
-            and spec_usable(dt, w) is None:
-        return 'ab'     # decodable but of a wrong length: only in range_cases
     return w
 
 
 def range_cases(params, rng):
-    """stored values outside the limits of the (changed) parameter definition; no writeInitParams afterwards
-    (the write wrappers validate against the limits, which the model does not contain)"""
+    """stored values outside the limits of the (changed) parameter definition"""
     for i, p in enumerate(params):
         if p['pers'] not in ('on', 'auto') or p['dt'][0] not in ('int', 'blob'):
             continue
@@ -1249,7 +1247,7 @@ def range_cases(params, rng):
             doc = dict(good)
             doc[f'p{i}'] = pick_wrong(p['dt'], rng, True)
             yield {'params': params, 'ops': [['corrupt', {'doc': {'s': doc}}], ['init', {}, None], ['save', None],
-                                             ['init', gen_cfg(params, rng, 0.3), None]]}
+                                             ['writeinit', None], ['init', gen_cfg(params, rng, 0.3), None]]}
 
 
 def gen_doc(params, rng, mode=None):
